@@ -346,3 +346,25 @@ pub fn recover_fold(store: &VObjStore) -> Result<Fold, String> {
     }
     Ok(f)
 }
+
+/// A WAL file rewritten in the previous on-disk format (version 1: entry checksum = crc32 of the payload only), which
+/// the reader keeps accepting (WAL_MIN_VERSION = 1). Layout: 16-byte header (byte 4 = version), then entries
+/// [len u32 LE][stamp u64 LE][crc u32 LE][payload].
+pub fn wal_file_to_version_1(bytes: &[u8]) -> Vec<u8> {
+    let mut b = bytes.to_vec();
+    if b.len() < 16 {
+        return b;
+    }
+    b[4] = 1;
+    let mut off = 16usize;
+    while off + 16 <= b.len() {
+        let len = u32::from_le_bytes([b[off], b[off + 1], b[off + 2], b[off + 3]]) as usize;
+        if off + 16 + len > b.len() {
+            break;
+        }
+        let crc = crc32fast::hash(&b[off + 16..off + 16 + len]);
+        b[off + 12..off + 16].copy_from_slice(&crc.to_le_bytes());
+        off += 16 + len;
+    }
+    b
+}
